@@ -94,13 +94,13 @@ Print Assumptions C09_create_never_replaces.
 
 (* Rust panics are explicit in the model ([s_panic]): the expect("current_writer must exist
    after rotate") in WalRotator::append never fires, and the actor's debug invariant
-   (verify_invariants: pending_acks.len() <= entries_since_sync; equal here, since every
-   write carries an ack channel) holds in every reachable state - for both variants of the
+   (verify_invariants: pending_acks.len() <= entries_since_sync; fire-and-forget writes
+   count as entries without a pending ack) holds in every reachable state - for both variants of the
    rotator, every history, every fault placement. *)
 Theorem C09_actor_never_panics :
   forall (cfg : config) (hist : list ((N -> nat) * list sched_item * list outcome)),
   let a := run_incarnations cfg hist in
-  s_panic a = false /\ N.of_nat (length (s_pending a)) = s_since a.
+  s_panic a = false /\ N.of_nat (length (s_pending a)) <= s_since a.
 Proof. exact never_panics. Qed.
 Print Assumptions C09_actor_never_panics.
 
